@@ -104,7 +104,7 @@ func VerifC17_ChangeParam() {
 	g := vNewGov()
 	senders := []sdk.Address{g.a, g.b, g.s, nil}
 	sender := senders[zz.Choice("sender", len(senders))]
-	ki := zz.Choice("key", 5)
+	ki := zz.Choice("key", 7)
 	var key string
 	var val []byte
 	newU := zz.Uint64("newvalue", 0, 1<<62)
@@ -123,6 +123,14 @@ func VerifC17_ChangeParam() {
 		key, val = "gov/daoOwner", g.cdc.MustMarshalJSON(g.s)
 	case 4: // wrong type for the parameter: must not change anything
 		key, val = "auth/MaxMemoCharacters", g.cdc.MustMarshalJSON("not a number")
+	case 5: // a key the ACL does not list but that resolves to the DAO owner parameter (extra path segment): nobody owns it
+		key, val = "gov/daoOwner/x", g.cdc.MustMarshalJSON(g.s)
+	case 6: // likewise for the ACL itself
+		acl := types.ACL{}
+		for _, k := range vParamKeys {
+			acl.SetOwner(k, g.s)
+		}
+		key, val = "gov/acl/x", g.cdc.MustMarshalJSON(acl)
 	}
 	before := g.raw()
 	ok, crashed := vRun(g, types.MsgChangeParam{FromAddress: sender, ParamKey: key, ParamVal: val})
@@ -138,7 +146,7 @@ func VerifC17_ChangeParam() {
 			}
 		}
 	}
-	isOwner := sender != nil && sender.Equals(vOwnerOf(g, key))
+	isOwner := sender != nil && sender.Equals(vOwnerOf(g, key)) && ki < 5
 	zz.Assert("C17.param.only-the-addressed-parameter-changes", !changedOther)
 	zz.Assert("C17.param.changes-only-for-the-acl-owner", !changedTarget || isOwner)
 	if !isOwner {
